@@ -42,3 +42,13 @@ Proof. reflexivity. Qed.
 Lemma gen_scan_single_step : gen_scan_one_lock = true.
 Proof. reflexivity. Qed.
 
+
+(* TensorStore::put feeds the Bloom filter that get/exists consult first; concurrent adds that share a
+   64-bit word must not lose each other's bits: one atomic read-modify-write per bit *)
+Lemma gen_bloom_add_atomic : gen_bloom_add_fetch_or = true.
+Proof. reflexivity. Qed.
+
+(* replay re-allocates entity ids in log order; the live store must allocate them in log order too:
+   put_durable calls index.get_or_create only after it holds the WAL guard *)
+Lemma gen_durable_ids_in_log_order : gen_durable_id_alloc_locked = true.
+Proof. reflexivity. Qed.
